@@ -21,15 +21,17 @@ FieldOpts(f, Z) == (IF "alias" \in Z THEN << <<"alias", AliasName(f, "alias")>> 
                    \o (IF "aalias" \in Z THEN << <<"aalias", AliasName(f, "aalias")>> >> ELSE <<>>)
 CfgAliases(Sa, Sb) == (IF "cfg" \in Sa THEN << <<"a", "a_cfg">> >> ELSE <<>>) \o (IF "cfg" \in Sb THEN << <<"b", "b_cfg">> >> ELSE <<>>)
 
-Class(Sa, Sb, allow, forbid, shadow) ==
+\* field a is typed int (converted) or Any (passed through untouched: a different code path reads the key)
+ClassT(Sa, Sb, allow, forbid, shadow, ta) ==
   <<"dc", "K",
-    << <<"a", <<"int">>, <<"req">>, FieldOpts("a", Sa)>>,
+    << <<"a", ta, <<"req">>, FieldOpts("a", Sa)>>,
        <<"b", <<"int">>, <<"val", I(0)>>, FieldOpts("b", Sb)>> >>,
     (IF CfgAliases(Sa, Sb) # <<>> \/ shadow THEN << <<"aliases", IF shadow THEN << <<"a", "b">> >> ELSE CfgAliases(Sa, Sb)>> >> ELSE <<>>)
     \o (IF allow THEN << <<"allow_deserialization_not_by_alias", TRUE>> >> ELSE <<>>)
     \o (IF forbid THEN << <<"forbid_extra_keys", TRUE>> >> ELSE <<>>) >>
 
-Classes == { Class(Sa, Sb, al, fo, FALSE) : Sa \in SUBSET Srcs, Sb \in SUBSET {"alias", "cfg"}, al \in BOOLEAN, fo \in BOOLEAN }
+Class(Sa, Sb, allow, forbid, shadow) == ClassT(Sa, Sb, allow, forbid, shadow, <<"int">>)
+Classes == { ClassT(Sa, Sb, al, fo, FALSE, ta) : Sa \in SUBSET Srcs, Sb \in SUBSET {"alias", "cfg"}, al \in BOOLEAN, fo \in BOOLEAN, ta \in { <<"int">>, <<"any">> } }
            \cup { Class({}, {}, al, fo, TRUE) : al \in BOOLEAN, fo \in BOOLEAN }     \* a's alias shadows b's name
 
 InputFor(K) == LET idx == SelectSeq([i \in DOMAIN Candidates |-> i], LAMBDA i : i \in K) IN
